@@ -2465,6 +2465,15 @@ def explore_c09(ctx, res, replay_ops=None):
                 res.violation("oracle", "C09: the CDR-transfer scenario could not be set up (%s)" % im, [op, "# impl: " + im], found_input=False)
             elif op.startswith("conc cgf "):
                 res.dist["cgf:" + op.split()[2]] += 1
+                m = re.search(r"stor=(\d+) .*torn=(\d+):(\d+)/(-?\d+)", im)
+                if m and op.split()[2] == "off":
+                    res.violation("oracle", "C09: %s of the %s CDR files that arrived in the billing domain are not whole files (the first: %s octets received, "
+                                  "the file header says %s): a file was transferred while another request of the subscriber was rewriting it" % (
+                                      m.group(2), m.group(1), m.group(3), m.group(4)), [o for o in cops if not o.startswith("conc seq end")] + ["# impl: " + im])
+                elif op.split()[2] == "off":
+                    ms = re.search(r"stor=(\d+)", im)
+                    res.extra["cdr_files_transferred_whole"] = int(ms.group(1)) if ms else 0
+        _hammer_check(res, cops, cimpl, "C09")
         _conc_check(res, cops, cimpl, 4, "C09")
     res.rule = ("batches of 2-5 (thorough: up to 16) requests released together through the real router, built with the Go race detector, under "
                 "GOMAXPROCS %s: k updates of one session; updates of two sessions + a release + a recharge notification of one subscriber; k creates "
